@@ -316,6 +316,15 @@ func (ex *Exec) bigGCD(a, b BigVal, wantX, wantY bool) (g, x, y BigVal) {
 		ex.stubs["gcd(prime, product of primes) = the prime if it is a factor, else 1"] = true
 		return BigVal{I: gi}, BigVal{I: xi}, BigVal{I: yi}
 	}
+	if ex.primeTerms[a.I.ID] && ex.primeTerms[b.I.ID] && a.G == nil && b.G == nil {
+		// two primes: the gcd is 1 unless they are equal
+		gi := smt.Ite(smt.Eq(a.I, b.I), a.I, smt.I64(1))
+		xi := ex.freshInt("bez", nil, nil)
+		yi := ex.freshInt("bez", nil, nil)
+		ex.assume(smt.Eq(smt.Add(smt.Mul(xi, a.I), smt.Mul(yi, b.I)), gi))
+		ex.stubs["gcd of two primes = 1 unless they are equal"] = true
+		return BigVal{I: gi}, BigVal{I: xi}, BigVal{I: yi}
+	}
 	if b.E != nil && isRealZero(b.E) {
 		// b is the group order: a is assumed invertible
 		xi := ex.freshInt("bez", nil, nil)
@@ -407,6 +416,11 @@ func (ex *Exec) bigXorUF(x, y BigVal) (BigVal, bool) {
 // modulo N is itself a reduced element: the atom standing for it
 func (ex *Exec) promoteReduced(x, other BigVal) BigVal {
 	if x.G == nil && other.G != nil && other.G.Reduced && x.I.Op == smt.OMod && len(x.I.Args) == 2 && x.I.Args[1] == other.G.Mod {
+		if x.I.Args[0].Op == smt.OMul {
+			if f, ok := ex.productFacet(x.I, other.G.Mod, 0); ok {
+				return BigVal{I: x.I, G: f}
+			}
+		}
 		f := ex.facetFor(x, other.G.Mod)
 		return BigVal{I: x.I, G: &GroupFacet{Mod: f.Mod, Exps: f.Exps, Reduced: true}}
 	}
